@@ -105,6 +105,19 @@ def run(tier: str) -> Run:
         r3.check(dense_vals == binned_vals and bool(dense_vals), fi.qualname, loc(fi),
                  {'dense': dense_vals[:2], 'binned': binned_vals[:2]}, key=fq)
         r4.check(not muts, fi.qualname, loc(fi), {'writes': uniq(muts)[:3]}, key=fq)
+        # the same over the dtypes of event coordinates: what the dense kernel accepts and returns for an integer or
+        # single-precision coordinate, it accepts and returns for events of that dtype
+        data_ops = [p_ for p_, s_ in specs.items() if s_.taint and s_.kind == 'scalar']
+        for dt_ in ('int64', 'float32'):
+            if not data_ops:
+                break
+            dts = {p_: dt_ for p_ in data_ops}
+            d_o = run_kernel(repo, fi, specs, dtypes=dts, binned=False)
+            b_o = run_kernel(repo, fi, specs, dtypes=dts, binned=True)
+            sig = lambda outs: sorted((o.kind, o.exc_type, tuple((repr(v.unit), v.dtype) for v in flat(o.value)) if o.kind == 'return' else ()) for o in outs)  # noqa: E731
+            if sig(d_o) != sig(b_o):
+                r3.fail(f'{fi.qualname} [{dt_} event coordinate]', loc(fi), {'dense': [str(x) for x in sig(d_o)][:2], 'binned': [str(x) for x in sig(b_o)][:2],
+                                                                           'where': [o.where for o in b_o if o.kind == 'raise'][:1]}, key=f'{fq}:{dt_}')
 
     # the top-level entry points must not write to the data they are given either
     r4b = run.rule('R4b', 'convert / deduce_conversion_graph / conversion_graph write to nothing reachable from their arguments', 3)
